@@ -185,6 +185,9 @@ pub fn wide_case(rng: &mut Rng) -> Vec<String> {
     pool.extend("abcdefghijklmnopqrstuvwxyzABCDEFGHIJKLMNOPQRSTUVWXYZ".chars());
     pool.extend("0123456789 _-.,;:!?\t".chars());
     pool.extend("\u{e9}\u{e8}\u{fc}\u{df}\u{3b1}\u{3b2}\u{3b3}\u{661}\u{662}\u{a0}\u{2003}\u{4e2d}\u{6587}".chars());
+    // characters of one general category that differ in class membership (So: enclosed alphanumerics are \w,
+    // other symbols are not; Po: U+111C9 is \w; No / Nl / Lm / Sk / Pc mates)
+    pool.extend("\u{24b6}\u{24e9}\u{1f170}\u{1f130}\u{a9}\u{ae}\u{2192}\u{2605}\u{111c9}\u{b2}\u{2167}\u{2b0}\u{5e}\u{203f}\u{b7}\u{2e2f}".chars());
     // astral letters, digits, symbols and the very last planes
     pool.extend("\u{10400}\u{1d7ce}\u{1f600}\u{1fbf9}\u{1fbfa}\u{20000}\u{2a700}\u{30000}\u{e0100}\u{f0000}\u{10ffff}".chars());
     let n = 1 + rng.below(2);
